@@ -345,7 +345,7 @@ def check(prop, tier, seed):
         "explanation": entry.get("explanation", ""),
         "obligation_list": [{"name": o.name, "kind": o.kind, "class": o.cls, "result": r["result"],
                              "backend": r.get("backend"), "time_s": r.get("time_s")}
-                            for o, r in zip(obs, results)][:3000],
+                            for o, r in zip(obs, results)][:8000],
     }
     for o, r in proofs:
         k = cov["by_kind"].setdefault(o.kind, {"n": 0, "discharged": 0})
